@@ -452,6 +452,8 @@ class IRGenerator:
 
     @staticmethod
     def _symbol_already_defined(item, existing):
+        if isinstance(existing, ApiRoutesByVersion) and existing.at_version:
+            existing = existing.at_version[min(existing.at_version)]
         ast_node = getattr(existing, '_ast_node', None)
         if ast_node is None:
             # The name belongs to a built-in type, which has no location.
